@@ -84,7 +84,7 @@ Ltac open_code :=
 (* index arithmetic and bit masks of a uint on the N side; reads / writes / lengths of converted lists *)
 Ltac norm :=
   repeat first
-  [ rewrite shr6_Z | rewrite mask_bidx_Z | rewrite land63_Z | rewrite zlen_zl
+  [ rewrite shr6_Z | rewrite quot64_Z | rewrite mask_bidx_Z | rewrite land63_Z | rewrite rem64_Z | rewrite mask_bidx_Z' | rewrite zlen_zl
   | rewrite m_get_zl_nat | rewrite m_get_zl_N | rewrite <- of_N_land | rewrite <- of_N_lor | rewrite <- of_N_ldiff
   | rewrite m_set_zl_nat | rewrite eqb0_of_N | rewrite eqb_of_N | rewrite ltb_of_N | rewrite leb_of_N
   | rewrite ltb_of_nat | rewrite leb_of_nat | rewrite <- zl_app | rewrite <- zl_repeat0 ];
@@ -180,19 +180,16 @@ Theorem code_arrayContainerIter_Next : forall v n,
   g_arrayContainerIter_Next (of_aiter v n) =
   Ret (match inner_next (Arr v) (IArr n) with Some (IArr n') => (of_aiter v n', true) | _ => (of_aiter v n, false) end).
 Proof.
-  intros. open_code. cbn [inner_next]. rewrite zlen_zl, lenN_length.
-  destruct (N.ltb_spec n (N.of_nat (length v))), (Z.ltb_spec (Z.of_N n - 1) (Z.of_nat (length v) - 1)); try lia; [|reflexivity].
-  feq.
+  intros. open_code. cbn [inner_next]. rewrite ?zlen_zl, lenN_length.
+  destruct (N.ltb_spec n (N.of_nat (length v))); repeat break1; zb; try lia; try reflexivity; feq.
 Qed.
 (* Value indexes values[i]: out of range (before the first Next, or on an emptied container) the code panics *)
 Theorem code_arrayContainerIter_Value : forall v n,
   g_arrayContainerIter_Value (of_aiter v n) =
   if ((1 <=? n) && (n <=? lenN v))%N then Ret (Z.of_N (inner_value (Arr v) (IArr n))) else Panic.
 Proof.
-  intros. open_code. cbn [inner_value]. rewrite m_get_zl, lenN_length, nthN_nth.
-  destruct (N.leb_spec 1 n), (N.leb_spec n (N.of_nat (length v))), (Z.leb_spec 0 (Z.of_N n - 1)),
-    (Z.ltb_spec (Z.of_N n - 1) (Z.of_nat (length v))); cbn [andb bind]; try lia; try reflexivity.
-  feq.
+  intros. open_code. cbn [inner_value]. rewrite m_get_zl, lenN_length, nthN_nth. cbv beta iota zeta delta [bind].
+  destruct (N.leb_spec 1 n), (N.leb_spec n (N.of_nat (length v))); cbn [andb]; repeat break1; zb; try lia; try reflexivity; feq.
 Qed.
 
 (* BitmapIter.Value: uint(i<<6 + j) *)
